@@ -23,9 +23,27 @@ class Gen:
                 elif kind == "chan":
                     objs.append((name, kind, [r.choice(["unb", "rdv", "cap:1", "cap:2"])]))
                 elif kind == "sem":
-                    objs.append((name, kind, [str(r.choice([0, 1, 2, 3])), r.choice(["fair", "unfair"])]))
+                    objs.append((name, kind, [str(r.choice([0, 1, 1, 2, 3])), r.choice(["fair", "unfair"])]))
+                elif kind == "tls":
+                    objs.append((name, kind, ["none"]))      # destructor kinds are fixed up below
                 else:
                     objs.append((name, kind, []))
+        # thread-local destructors: log / touch another key / lock a mutex
+        tls = [i for i, o in enumerate(objs) if o[1] == "tls"]
+        mx = [o[0] for o in objs if o[1] == "mutex"]
+        for i in tls:
+            c = r.below(10)
+            if c < 1:
+                d = "none"
+            elif c < 5 or (len(tls) < 2 and not mx):
+                d = "log"
+            elif c < 8 and len(tls) >= 2:
+                d = "touch:" + objs[r.choice([j for j in tls if j != i] if r.chance(5, 6) else tls)][0]
+            elif mx:
+                d = "lock:" + r.choice(mx)
+            else:
+                d = "log"
+            objs[i] = (objs[i][0], "tls", [d])
         return objs
 
     def names(self, objs, kind):
@@ -43,11 +61,12 @@ class Gen:
             return [f"acas {a} {r.choice([0, 1, 2, v])} {r.choice([0, 1, 7, v])}"]
         return [f"{op} {a} {v}"]
 
-    def simple_op(self, objs, ntasks):
+    def simple_op(self, objs, ntasks, k=0):
         r, w = self.r, self.p.get("weights", {})
         kinds = []
         for k, wt in w.items():
             kinds += [k] * wt
+        body = k
         k = r.choice(kinds) if kinds else "yield"
         if k == "atomic" and self.names(objs, "atomic"):
             return self.atomic_op(objs)
@@ -69,7 +88,113 @@ class Gen:
             return self.rw_block(objs, ntasks)
         if k == "reset":
             return ["reset_steps"]
+        if k == "panic":
+            return ["panic"]
+        if k == "sem" and self.names(objs, "sem"):
+            return self.sem_block(objs, ntasks)
+        if k == "send" and self.names(objs, "chan"):
+            return self.send_block(objs)
+        if k == "recv" and self.names(objs, "chan"):
+            return self.recv_block(objs, body)
+        if k == "cvwait" and self.names(objs, "condvar"):
+            return self.cv_wait(objs)
+        if k == "cvnotify" and self.names(objs, "condvar"):
+            return self.cv_notify(objs)
+        if k == "barrier" and self.names(objs, "barrier"):
+            b = r.choice(self.names(objs, "barrier"))
+            return [f"bwait {b}"] * (2 if r.chance(1, 5) else 1)
+        if k == "once" and self.names(objs, "once"):
+            o = r.choice(self.names(objs, "once"))
+            c = r.below(10)
+            if c < 6:
+                return [f"call_once {o} {1 + r.below(8)}"]
+            if c < 8:
+                return [f"is_completed {o}"]
+            return [f"once_val {o}"]
+        if k == "tls" and self.names(objs, "tls"):
+            return [f"tls_with {r.choice(self.names(objs, 'tls'))}"]
+        if k == "lazy" and self.names(objs, "lazy"):
+            return [f"lazy_get {r.choice(self.names(objs, 'lazy'))}"]
         return ["yield"]
+
+    # ---- BatchSemaphore
+    def sem_block(self, objs, ntasks):
+        r = self.r
+        s = r.choice(self.names(objs, "sem"))
+        n = r.choice([1, 1, 1, 2, 2, 3])
+        c = r.below(20)
+        inner = self.inner_ops(objs, ntasks, 2) if r.chance(1, 2) else []
+        if c < 8:
+            rel = [] if r.chance(1, 6) else [f"release {s} {n if r.chance(5, 6) else r.choice([1, 2])}"]
+            return [f"acquire {s} {n}"] + inner + rel
+        if c < 12:
+            body = inner + [f"release {s} {n}"]
+            return [f"try_acquire {s} {n}", f"if nopermits skip {len(body)}"] + body
+        if c < 15:
+            return [f"release {s} {n}"]
+        if c < 17:
+            return [f"avail {s}"]
+        if c < 18:
+            return [f"close {s}"]
+        return [f"acquire {s} {n}", f"avail {s}"]
+
+    # ---- channels
+    def send_block(self, objs):
+        r = self.r
+        c = r.choice(self.names(objs, "chan"))
+        out = []
+        for _ in range(1 + r.below(2)):
+            out.append(f"{'try_send' if r.chance(1, 4) else 'send'} {c} {1 + r.below(9)}")
+        if r.chance(1, 5 if not self.p.get("dl") else 12):
+            out.insert(len(out) if r.chance(3, 4) else r.below(len(out) + 1), f"drop_tx {c}")
+        return out
+
+    def recv_block(self, objs, body):
+        r = self.r
+        mine = [c for c in self.names(objs, "chan") if self.rx_owner.get(c) == body]
+        if not mine:
+            if not r.chance(1, 10):
+                return self.send_block(objs)
+            mine = self.names(objs, "chan")
+        c = r.choice(mine)
+        out = []
+        for _ in range(1 + r.below(3)):
+            out.append(f"{'try_recv' if r.chance(1, 4) else 'recv'} {c}")
+        if r.chance(1, 8):
+            out.insert(r.below(len(out) + 1), f"drop_rx {c}")
+        return out
+
+    # ---- condvar
+    def cv_wait(self, objs):
+        r = self.r
+        cv = r.choice(self.names(objs, "condvar"))
+        m = r.choice(self.names(objs, "mutex"))
+        c = r.below(10)
+        if c < 4:
+            # predicate "loop" (unrolled twice): wait only while the flag is 0
+            out = [f"lock {m}", "if v:1 skip 1", f"wait {cv} {m}"]
+            if r.chance(1, 2):
+                out += ["if v:1 skip 1", f"wait {cv} {m}"]
+            return out + [f"unlock {m}"]
+        if c < 8:
+            return [f"lock {m}", f"wait {cv} {m}"] + ([] if r.chance(1, 4) else [f"unlock {m}"])
+        if c < 9:
+            return [f"wait {cv} {m}"]                                  # no guard
+        return [f"lock {m}", f"wait {cv} {m}", f"setval {m} 0", f"unlock {m}"]
+
+    def cv_notify(self, objs):
+        r = self.r
+        cv = r.choice(self.names(objs, "condvar"))
+        m = r.choice(self.names(objs, "mutex"))
+        n = "notify_all" if r.chance(1, 3) else "notify_one"
+        c = r.below(10)
+        if c < 4:
+            return [f"lock {m}", f"setval {m} 1", f"unlock {m}", f"{n} {cv}"]
+        if c < 6:
+            return [f"lock {m}", f"setval {m} 1", f"{n} {cv}", f"unlock {m}"]
+        if c < 8:
+            return [f"{n} {cv}"]
+        return [f"{n} {cv}", f"{'notify_all' if r.chance(1, 2) else 'notify_one'} {cv}"]
 
     def inner_ops(self, objs, ntasks, depth):
         r = self.r
@@ -126,12 +251,35 @@ class Gen:
         objs = self.pick_objs()
         nt = 1 + p.get("min_tasks", 1) + r.below(p.get("extra_tasks", 2) + 1)
         bodies = [[] for _ in range(nt)]
+        # each channel has one designated receiving body (task 0, or a child the receiver moves to)
+        self.rx_owner = {c: (0 if r.chance(1, 2) else r.below(nt)) for c in self.names(objs, "chan")}
         for k in range(nt):
             for _ in range(p.get("min_ops", 1) + r.below(p.get("extra_ops", 4))):
-                bodies[k] += self.simple_op(objs, nt)
+                bodies[k] += self.simple_op(objs, nt, k)
+        scoped = {}
+        if p.get("scope"):
+            # some children are spawned as scoped threads: grouped per parent into one `thread::scope`
+            for k in range(1, nt):
+                if r.chance(p["scope"], 10):
+                    parent = 0 if r.chance(2, 3) else r.below(k)
+                    scoped.setdefault(parent, []).append(k)
+            for parent, kids in scoped.items():
+                blk = ["scope_begin"]
+                for kid in kids:
+                    blk.append(f"scope_spawn {kid}")
+                    for _ in range(r.below(2)):
+                        blk += self.simple_op(objs, nt, parent)
+                blk.append("scope_end")
+                pos = r.below(len(bodies[parent]) + 1) if r.chance(1, 2) else 0
+                while pos > 0 and pos < len(bodies[parent]) and self._inside_skip(bodies[parent], pos):
+                    pos -= 1
+                bodies[parent][pos:pos] = blk
+        scoped_kids = {kid for kids in scoped.values() for kid in kids}
         # spawns: each body k>0 is spawned exactly once by a lower-numbered body
         for k in range(1, nt):
-            parent = 0 if r.chance(2, 3) else r.below(k)
+            if k in scoped_kids:
+                continue
+            parent = 0 if r.chance(*p.get("parent0", (2, 3))) else r.below(k)
             pos = r.below(len(bodies[parent]) + 1) if r.chance(1, 2) else 0
             # never insert between an `if … skip` and the ops it guards
             while pos > 0 and pos < len(bodies[parent]) and self._inside_skip(bodies[parent], pos):
@@ -163,6 +311,38 @@ class Gen:
 PROFILES = {
     "kernel": {"objs": {"atomic": (1, 2)}, "weights": {"atomic": 5, "yield": 3, "sleep": 1, "rand": 2, "ctx": 1, "park": 1, "unpark": 2},
                "min_tasks": 1, "extra_tasks": 2, "min_ops": 1, "extra_ops": 5},
+    "sem": {"objs": {"atomic": (1, 1), "sem": (1, 2)},
+            "weights": {"sem": 7, "atomic": 1, "yield": 1, "rand": 1},
+            "min_tasks": 1, "extra_tasks": 2, "min_ops": 1, "extra_ops": 3},
+    "chan": {"objs": {"atomic": (0, 1), "chan": (1, 2)}, "parent0": (9, 10),
+             "weights": {"send": 5, "recv": 4, "atomic": 1, "yield": 1},
+             "min_tasks": 1, "extra_tasks": 2, "min_ops": 1, "extra_ops": 3},
+    "chan_dl": {"objs": {"chan": (1, 2), "mutex": (0, 1)}, "dl": True, "parent0": (9, 10),
+                "weights": {"send": 4, "recv": 5, "lock": 1, "yield": 1, "panic": 1},
+                "min_tasks": 1, "extra_tasks": 2, "min_ops": 1, "extra_ops": 3},
+    "condvar": {"objs": {"mutex": (1, 2), "condvar": (1, 2), "atomic": (0, 1)},
+                "weights": {"cvwait": 5, "cvnotify": 5, "lock": 1, "yield": 1, "atomic": 1},
+                "min_tasks": 1, "extra_tasks": 2, "min_ops": 1, "extra_ops": 2},
+    "condvar_dl": {"objs": {"mutex": (1, 1), "condvar": (1, 1)},
+                   "weights": {"cvwait": 6, "cvnotify": 3, "yield": 1, "panic": 1},
+                   "min_tasks": 1, "extra_tasks": 2, "min_ops": 1, "extra_ops": 2},
+    "barrier": {"objs": {"barrier": (1, 2), "atomic": (0, 1)},
+                "weights": {"barrier": 6, "atomic": 1, "yield": 1, "rand": 1},
+                "min_tasks": 1, "extra_tasks": 2, "min_ops": 1, "extra_ops": 3},
+    "once": {"objs": {"once": (1, 2), "atomic": (0, 1), "lazy": (0, 2)},
+             "weights": {"once": 6, "lazy": 2, "atomic": 1, "yield": 1, "panic": 1},
+             "min_tasks": 1, "extra_tasks": 2, "min_ops": 1, "extra_ops": 3},
+    "scope": {"objs": {"atomic": (1, 1), "mutex": (1, 1), "chan": (0, 1), "barrier": (0, 1)}, "scope": 7,
+              "weights": {"atomic": 2, "lock": 3, "send": 2, "recv": 2, "barrier": 1, "yield": 1, "park": 1, "unpark": 1},
+              "min_tasks": 1, "extra_tasks": 2, "min_ops": 1, "extra_ops": 3},
+    "tls": {"objs": {"tls": (1, 4), "mutex": (1, 1), "atomic": (0, 1)}, "scope": 2,
+            "weights": {"tls": 6, "lock": 2, "atomic": 1, "yield": 1, "panic": 1},
+            "min_tasks": 1, "extra_tasks": 2, "min_ops": 1, "extra_ops": 4},
+    "stdmix": {"objs": {"atomic": (0, 1), "mutex": (1, 1), "condvar": (0, 1), "chan": (0, 2), "barrier": (0, 1),
+                        "once": (0, 1), "sem": (0, 1), "tls": (0, 2), "lazy": (0, 1)}, "scope": 3,
+               "weights": {"atomic": 1, "lock": 2, "cvwait": 2, "cvnotify": 2, "send": 2, "recv": 2, "barrier": 1,
+                           "once": 1, "sem": 2, "tls": 1, "lazy": 1, "yield": 1, "panic": 1},
+               "min_tasks": 1, "extra_tasks": 2, "min_ops": 1, "extra_ops": 3},
     "locks": {"objs": {"atomic": (1, 2), "mutex": (1, 2), "rwlock": (0, 1)},
               "weights": {"atomic": 3, "yield": 1, "lock": 5, "rw": 3, "rand": 1},
               "min_tasks": 1, "extra_tasks": 2, "min_ops": 1, "extra_ops": 4},
